@@ -294,7 +294,16 @@ func genBase(r *hx.Rand) BaseT {
 	case 1:
 		return BaseT{Kind: BAnyMessage}
 	case 2, 3:
-		return BaseT{Kind: BRef, Import: Ident(r), Name: Ident(r)}
+		// a qualified reference is a reference whatever its parts are called: also `pkg.string`,
+		// `int32.T`, `bytes.bool`
+		imp, name := Ident(r), Ident(r)
+		if r.Intn(3) == 0 {
+			name = builtinNames[r.Intn(len(builtinNames))]
+		}
+		if r.Intn(6) == 0 {
+			imp = builtinNames[r.Intn(len(builtinNames))]
+		}
+		return BaseT{Kind: BRef, Import: imp, Name: name}
 	case 4, 5:
 		return BaseT{Kind: BName, Name: builtinNames[r.Intn(len(builtinNames))]}
 	}
